@@ -84,9 +84,32 @@ func c14Transfer(rc *simrt.RunCtx, cli, srv *GoBackNConn, msgs [][]byte, what st
 	sdone := make(chan struct{})
 	go func() {
 		defer close(sdone)
+		// sometimes the application sends every message from one scratch
+		// buffer that it refills as soon as Send has returned
+		var scratch []byte
+		reuse := rc.Pick(3, "wl.reuse-send-buffer") == 0
+		if reuse {
+			rc.Probe("c14.send-buffer-reused")
+		}
 		for _, m := range msgs {
-			if err := cli.Send(m); err != nil {
+			buf := m
+			if reuse {
+				if cap(scratch) < len(m) {
+					scratch = make([]byte, len(m), 2*len(m)+16)
+				}
+				scratch = scratch[:len(m)]
+				copy(scratch, m)
+				buf = scratch
+			}
+			if err := cli.Send(buf); err != nil {
 				return
+			}
+			if reuse {
+				// what the caller does with its buffer after a successful
+				// Send is the caller's business
+				for i := range scratch {
+					scratch[i] = 0xEE
+				}
 			}
 			mu.Lock()
 			accepted++
